@@ -3,7 +3,7 @@ ALL = ["C%02d" % i for i in range(1, 37)]
 
 BASELINE_OFF = ("cd /repo && GOFLAGS=-mod=mod GOPROXY=off GOSUMDB=off GOTOOLCHAIN=local "
                 "go test -json -vet=off -count=1 -timeout 25m ./...")
-HOOK_COMMITS = ["d9bd3981", "91affb0d", "895625aa", "a0f266b2", "acb6a1da", "2c5176d9", "91558341", "756b8833", "9339bb51"]
+HOOK_COMMITS = ["d9bd3981", "91affb0d", "895625aa", "a0f266b2", "acb6a1da", "2c5176d9", "91558341", "756b8833", "9339bb51", "81a9257e"]
 
 NOTES = ("Every check: TLC design check of the TLA+ module, then TLC-generated behaviours replayed against /repo's "
          "working tree (harness rebuilt on every run with -tags verif) and/or recorded traces validated by TLC. "
@@ -62,13 +62,15 @@ CHECKS = {
                 "properties LoserIsTold: the closed connection's last message is a Cease NOTIFICATION, EstablishedSurvives). One peer "
                 "opens up to 3-5 connections, two at a time; actions Connect, RecvOpen, RecvOpenBoth (both OPENs in the speaker's hands "
                 "before either FSM changed state, forced with a scheduler gate hook after the collision check), RecvKeepalive, "
-                "RecvUpdate, PeerCloses; x 4 identifier orders (RFC 4271 6.8 and the equal-identifier rule of RFC 6286). All paths to "
+                "RecvUpdate, PeerCloses; x 4 identifier orders (RFC 4271 6.8 and the equal-identifier rule of RFC 6286) x (all connections "
+                "accepted | connection 1 dialled by the speaker). All paths to "
                 "depth 7-8 plus simulation are replayed on a real bgpServer; per connection FSM state, connection closed, messages "
                 "written, number of Established FSMs and the Loc-RIB are compared after every event.",
-        "note": "Both connections are incoming ones (a passive peer): outgoing connections use tcp.Dial to port 179 and cannot be driven "
-                "offline; an FSM that is handed a connection runs the same code from Active state whether it was dialled or accepted, "
-                "and collisionHandling does not distinguish them. The tie-break is bio-rd's reading of RFC 4271 6.8 (the connection the "
-                "OPEN just arrived on survives iff the local identifier is lower). Schedules: message-level interleavings plus the one "
+        "note": "The connection the speaker dials cannot be a real one offline (tcp.Dial to port 179 fails): the in-memory connection "
+                "is handed to the peer's own FSM at the point where its TCP connector delivers a dialled connection (verif hook), so "
+                "the Connect state path is the real one, the dial itself is not. The tie-break is bio-rd's reading of RFC 4271 6.8 "
+                "(the connection the OPEN just arrived on survives iff the local identifier is lower; the code does not look at "
+                "who initiated a connection). Schedules: message-level interleavings plus the one "
                 "forced intra-step overlap (check of the first OPEN done, state not yet changed); other goroutine overlaps inside the "
                 "FSM are not enumerated. Three defects repaired.",
         "technique": "TLA+ spec Collision + TLC exhaustive check; behaviour replay (all paths + simulation) against a real bgpServer with "
@@ -122,7 +124,7 @@ CHECKS = {
         "text": _MC % "BMP" + " (invariants MirrorsSessions: table[vrf] = union of the pre- and post-policy Adj-RIB-In views of the up "
                 "sessions of that VRF; NothingRemains after peer-down / termination / connection loss; ObserversInformed; views the receiver "
                 "is configured to ignore stay out). Sessions: eBGP and iBGP, add-path receive negotiated by the two OPENs, an IPv6 session, "
-                "the same peer address in two VRFs; actions Initiation, PeerUp, RouteMon (announce / withdraw, view, path id), route "
+                "the same peer address in two VRFs; actions Initiation, PeerUp, RouteMon (announce / withdraw, view, path id), RouteMonMulti (two NLRI in one UPDATE), route "
                 "monitoring for a session that is not up, End-of-RIB / statistics / route mirroring, PeerDown, Termination, ConnLoss, "
                 "Reconnect, Observe. Four session families are emitted completely (every transition of the whole reachable graph; the same "
                 "TLC run is the design check), plus seeded random conversations of 14-16 messages over 4 sessions x 2 VRFs. Every message "
